@@ -306,6 +306,29 @@ class ConnGen:
         return dict(sent=self.sent(False), iface='wl_registry', id=reg, name='bind',
                     args=[['uint', d.int(1, 60)], ['str', iface], ['uint', d.int(1, 9)], ['new', None, oid]])
 
+    def step_kinds(self, d):
+        """a free-form message (unknown interface) whose arguments of different kinds carry colliding small values:
+        Int 7, Fd 7, fixed 7.0, string "7", object id 7"""
+        pool = sorted(i for i, t in self.live.items() if t in UNKNOWN_IFACES)
+        if not pool:
+            return self.step_bind(d, iface=d.choice(UNKNOWN_IFACES))
+        oid = d.choice(pool)
+        args = []
+        for _ in range(d.int(1, 5)):
+            v = d.choice([0, 1, 2, 3, 5, 7])
+            k = d.int(0, 6)
+            if k == 0: args.append(['int', v])
+            elif k == 1: args.append(['uint', v])
+            elif k == 2: args.append(['fixed', v * 256 if d.chance(0.7) else v * 256 + 128])
+            elif k == 3: args.append(['fd', v])
+            elif k == 4: args.append(['str', str(v) if d.chance(0.7) else d.choice(['nil', '7.0', 'wl_x'])])
+            elif k == 5:
+                o = self.pick_obj(d, None)
+                args.append(['obj', self.iface_of(o), o])
+            else: args.append(['str', None] if d.chance(0.5) else ['obj', 'wl_x', None])
+        sent = d.chance(0.5)
+        return dict(sent=sent, iface=self.iface_of(oid), id=oid, name=d.choice(FREE_NAMES), args=args)
+
     def step_deep_reuse(self, d):
         """delete and re-create the same client id (towards incarnation letters beyond z)"""
         pool = sorted(i for i in self.dead if i < SERVER_BASE and i not in self.live)
@@ -336,6 +359,7 @@ class ConnGen:
         elif kind == 'enum': m = self.step_enum_message(d)
         elif kind == 'title': m = self.step_title(d)
         elif kind == 'retype': m = self.step_retype(d)
+        elif kind == 'kinds': m = self.step_kinds(d)
         elif kind == 'sync': m = self.step_sync(d)
         elif kind == 'first' and 2 not in self.live and 2 not in self.dead: m = self.step_first(d)
         if m is None:
